@@ -8,8 +8,17 @@ the property clauses at extraction are lemmas over it.
 """
 MANIFEST = {
     'category': 'proof',
-    'text': 'placeholder',
-    'note': 'placeholder',
+    'text': 'The rejection sample buffer is verified against a representation invariant (ghost provenance src/pos over consumed draw ids; clauses A-H = injective provenance, '
+            'row consistency of every output, placeholders at +inf, ascending order, threshold, exclusion) on the real source, for all n_samples, batch_size, accepted counts and tie patterns: '
+            '_init_samples_lazy establishes it, _merge_batch preserves it (loops over the samples dict cut at visited-set invariants, pigeonhole instance for the n-th smallest), '
+            '_update_state_meta reports the n-th held discrepancy, extract_result returns rows [0,n) of every column, _update_distances re-sorts row-consistently, update runs the transformers in order, '
+            'set_objective gives ceil(budget/batch_size) batches and _update_objective_n_batches leaves it alone without a threshold / finishes exactly when n_samples held draws satisfy the threshold; '
+            'the property clauses at extraction are a lemma over the invariant. A bounded end-to-end run against an OutputPool record of every consumed batch is the labelled stand-in and replay vehicle.',
+    'note': 'Trusted: pyvc engine and numpy spec table (argsort = sorting permutation, mask select, slices as views), pigeonhole lemma L1 (Lean), +inf as a real constant bounding every discrepancy, '
+            'no NaN discrepancies, 1-D discrepancy. Known finding C01-F9 (a +inf draw ties with placeholder rows) is split off by the finiteness premise. '
+            'That exactly N batches are consumed in a run is the conjunction of set_objective / _update_objective_n_batches here and the iterate/infer contracts of C04 (paper step). '
+            '_init_samples_lazy is proved for three outputs (discrepancy, scalar, vector-valued).',
+    'technique': 'deductive: representation-invariant VCs from the real AST (pyvc) with ghost provenance, z3/cvc5; bounded: end-to-end vs pool record, n,b<=3-4',
 }
 
 import z3
@@ -396,17 +405,230 @@ class OutDict(Sym):
                                          z3.Implies(visited(key), z3.And(self.length(key) == s.n, forall_range(0, s.n, lambda i: self.at(key, i) == s.samples.at(key, i), 'i')))))
 
 
+
+# ---------------------------------------------------------------- Rejection.update: the order of the state transformers
+class RejectionUpdate(Contract):
+    """update = base update; lazy init iff no samples yet; merge; meta; objective - in this order, on the same batch.
+    With the callee contracts: buffer_ok, n_sim = b * n_batches and threshold = n-th held discrepancy hold after every update."""
+    target = 'elfi/methods/inference/samplers.py::Rejection.update'
+    prop = 'C01'
+    fin = 3
+
+    def __init__(self, first):
+        self.first = first
+        self.label = 'first-batch' if first else 'later-batch'
+
+    def setup(self, vc):
+        s = NS(calls=[], batch=object(), idx=SInt(z3.Int('batch_index')))
+        state = {'samples': None if self.first else 'SAMPLES'}
+
+        def rec(name, effect=None):
+            def f(self_, *a):
+                s.calls.append((name, a))
+                if effect:
+                    effect()
+            return f
+        base = make_object('BaseStub', methods=dict(update=lambda self_, batch, i: s.calls.append(('ParameterInference.update', (batch, i)))))
+        s.self = make_object('RejectionStub', attrs=dict(state=state), methods=dict(
+            _vc_super=lambda self_: base,
+            _init_samples_lazy=rec('_init_samples_lazy', lambda: state.__setitem__('samples', 'SAMPLES')),
+            _merge_batch=rec('_merge_batch'), _update_state_meta=rec('_update_state_meta'),
+            _update_objective_n_batches=rec('_update_objective_n_batches')))
+        return s, (s.self, s.batch, s.idx), {}
+
+    def env(self, vc):
+        return dict(super=lambda cls, obj: obj._vc_super(), Rejection=object())
+
+    def ensures(self, s, result):
+        want = ['ParameterInference.update'] + (['_init_samples_lazy'] if self.first else []) + ['_merge_batch', '_update_state_meta', '_update_objective_n_batches']
+        names = [c[0] for c in s.calls]
+        same_batch = all(c[1][0] is s.batch for c in s.calls if c[0] in ('ParameterInference.update', '_init_samples_lazy', '_merge_batch'))
+        return [('state transformers run once each in the contract order', z3.BoolVal(names == want)),
+                ('every transformer receives the consumed batch itself', z3.BoolVal(same_batch))]
+
+
+# ---------------------------------------------------------------- how many batches: _update_objective_n_batches
+class UpdateObjective(Contract):
+    """no threshold: the objective is not touched (so a budget of N batches stays N).  threshold: after the update the run is
+    finished (objective n_batches <= consumed batches) exactly when at least n_samples held draws satisfy the threshold."""
+    target = 'elfi/methods/inference/samplers.py::Rejection._update_objective_n_batches'
+    prop = 'C01'
+    fin = 3
+    fin_range = 7
+
+    def __init__(self, thr):
+        self.thr_given = thr
+        self.label = 'threshold' if thr else 'no-threshold'
+
+    def setup(self, vc):
+        vc.axioms = key_axioms(vc)
+        n, b, nb, N0 = z3.Ints('n_samples batch_size n_batches objective_n_batches')
+        vc.fin_bounds.extend([n, b, nb, N0])
+        thr = z3.Real('threshold')
+        samples = SDictArr('samples', n + b, dom=lambda k: DOM(k))
+        samples.nonempty = True
+        s = NS(n=n, b=b, nb=nb, N0=N0, thr=thr, samples=samples)
+        s.objective = {'threshold': SReal(thr) if self.thr_given else None, 'n_samples': SInt(n), 'n_batches': SInt(N0)}
+        s.self = make_object('RejectionStub', attrs=dict(objective=s.objective, state={'samples': samples, 'n_sim': SInt(b * nb), 'n_batches': SInt(nb)},
+                                                         discrepancy_name=SKey(DKEY), batch_size=SInt(b)))
+        return s, (s.self,), {}
+
+    def requires(self, s):
+        # call site: iterate() runs only while not finished (objective > consumed before this batch was counted)
+        return [s.n >= 1, s.b >= 1, s.nb >= 1, s.N0 >= s.nb]
+
+    def ensures(self, s, result):
+        vc = cur()
+        N1 = T(s.objective['n_batches'])
+        if not self.thr_given:
+            return [('without a threshold the objective is left as set_objective computed it', z3.And(N1 == s.N0, z3.BoolVal(s.objective['threshold'] is None)))]
+        rec = vc.libcalls['np.sum'][0]
+        n_acc = T(rec['res'])
+        return [('finished after this update  <=>  at least n_samples held draws satisfy the threshold', (N1 <= s.nb) == (n_acc >= s.n)),
+                ('n_acceptable counts the held rows with discrepancy <= threshold',
+                 z3.And(rec['arr'].shape[0] == s.n + s.b, forall_range(0, s.n + s.b, lambda i: rec['arr'].at(i) == (s.samples.at(DKEY, i) <= s.thr), 'i')))]
+
+
+# ---------------------------------------------------------------- the property clauses at extraction, as lemmas over buffer_ok
+class ExtractionLemma(Contract):
+    """buffer_ok  =>  the n_samples returned rows are consumed admissible draws (distinct, row-consistent), ascending, and every
+    admissible consumed draw that is not returned is >= the largest returned one.  Under the finiteness premise also:
+    a placeholder among the first n rows appears only after ALL admissible consumed draws (i.e. only when fewer than
+    n_samples admissible draws were consumed).  Without finiteness that last clause is refuted: known finding C01-F9."""
+    target = '@verif/lemmas/c01_lemmas.py::lemma_extraction'
+    prop = 'C01'
+    fin = 3
+    fin_range = 7
+
+    def __init__(self, finite, thr):
+        self.finite, self.thr_given = finite, thr
+        self.label = ('finite-draws' if finite else 'inf-draws') + ('-threshold' if thr else '')
+
+    def setup(self, vc):
+        vc.axioms = key_axioms(vc)
+        n, b, base = z3.Ints('n_samples batch_size base')
+        vc.fin_bounds.extend([n, b, base])
+        thr = z3.Real('threshold') if self.thr_given else None
+        s = NS(n=n, b=b, base=base, L=n + b, buf=z3.Function('buf', Key, I, R), src=z3.Function('src', I, I), pos=z3.Function('pos', I, I), adm=adm_fn(thr), thr=thr)
+        return s, (), {}
+
+    def requires(self, s):
+        r = [s.n >= 1, s.b >= 1, s.base >= 0, z3.ForAll([z3.Int('jj')], val(DKEY, z3.Int('jj')) <= INF)]
+        r += buffer_ok(lambda k, i: s.buf(k, i), s.src, s.pos, s.base, s.n, s.L, s.adm)
+        if self.finite:
+            r.append(('premise: every consumed discrepancy is finite', forall_range(0, s.base, lambda j: val(DKEY, j) < INF, 'j')))
+        if self.thr_given:
+            r.append(s.thr < INF)
+        return r
+
+    def ensures(self, s, result):
+        n, buf, src, pos = s.n, s.buf, s.src, s.pos
+        out = []
+        if self.finite:
+            out.append(('a placeholder among the first n rows only after all admissible consumed draws',
+                        forall_range(0, n, lambda i: z3.Implies(src(i) < 0, forall_range(0, s.base, lambda j: z3.Implies(s.adm(j), z3.And(pos(j) >= 0, pos(j) < i)), 'j')), 'i')))
+            return out + [
+                ('returned real rows are distinct consumed admissible draws, row-consistent in every output',
+                 forall_range(0, n, lambda i: z3.Implies(src(i) >= 0, z3.And(src(i) < s.base, s.adm(src(i)), pos(src(i)) == i,
+                                                                          fa_key(lambda key: z3.Implies(DOM(key), buf(key, i) == val(key, src(i)))))), 'i')),
+                ('ascending discrepancy', forall2_range(0, n, lambda i, j: z3.Implies(i <= j, buf(DKEY, i) <= buf(DKEY, j)))),
+                ('every admissible consumed draw that is not returned is >= the largest returned discrepancy',
+                 forall_range(0, s.base, lambda j: z3.Implies(z3.And(s.adm(j), z3.Or(pos(j) < 0, pos(j) >= n)), val(DKEY, j) >= buf(DKEY, n - 1)), 'j'))]
+        return [('a placeholder among the first n rows only after all admissible consumed draws [fails for +inf draws: C01-F9]',
+                 forall_range(0, n, lambda i: z3.Implies(src(i) < 0, forall_range(0, s.base, lambda j: z3.Implies(s.adm(j), z3.And(pos(j) >= 0, pos(j) < i)), 'j')), 'i'))]
+
+
+
+# ---------------------------------------------------------------- adaptive distance: re-sorting by the newest distance at extraction
+DNEW = z3.Function('new_distance', R, R)         # the updated distance as a function of the summary held in the row (uninterpreted)
+
+
+class UpdateDistances(Contract):
+    """after _update_distances the first n_samples rows are re-ordered by the recomputed distance: the discrepancy shown in row i
+    is the new distance OF ROW i (row consistency) and ascending; every other output is permuted by the same permutation."""
+    target = 'elfi/methods/inference/samplers.py::Rejection._update_distances'
+    prop = 'C01'
+    fin = 3
+    fin_range = 7
+
+    def setup(self, vc):
+        n, b = z3.Ints('n_samples batch_size')
+        vc.fin_bounds.extend([n, b])
+        L = n + b
+        cols = {'d': SArr.fresh('d0', (L,), 'real'), 't': SArr.fresh('t0', (L,), 'real'), 's': SArr.fresh('s0', (L,), 'real')}
+        s = NS(n=n, b=b, L=L, cols=cols, calls=[])
+
+        class Node:
+            def update_distance(self_):
+                s.calls.append('update_distance')
+
+            def generate(self_, with_values=None):
+                s.calls.append('generate')
+                data = with_values['s'].snapshot()
+                cur().oblige('call-pre[generate receives the first n_samples held summaries]', data.shape[0] == n)
+                return SArr(Cell(lambda r: DNEW(data.at(r)), (n,), 'real'))
+        s.self = make_object('RejectionStub', attrs=dict(model={'d': Node()}, discrepancy_name='d', sums=['s'], objective={'n_samples': SInt(n)},
+                                                         state={'samples': cols}),
+                             methods=dict(_update_state_meta=lambda self_: s.calls.append('_update_state_meta')))
+        return s, (s.self,), {}
+
+    def requires(self, s):
+        return [s.n >= 1, s.b >= 1]
+
+    def snapshot(self, s):
+        return {k: v.snapshot() for k, v in s.cols.items()}
+
+    def ensures(self, s, result):
+        vc = cur()
+        smp = s.self.state['samples']
+        p = vc.libcalls['np.argsort'][0]
+        n = s.n
+        d1, t1, s1 = smp['d'], smp['t'], smp['s']
+        old = s.old
+        return [('the distance node is updated before the distances are recomputed, the state meta afterwards', z3.BoolVal(s.calls == ['update_distance', 'generate', '_update_state_meta'])),
+                ('all outputs other than the discrepancy are permuted by one permutation of the first n_samples rows',
+                 forall_range(0, n, lambda i: z3.And(0 <= p.pi(i), p.pi(i) < n, t1.at(i) == old.t.at(p.pi(i)), s1.at(i) == old.s.at(p.pi(i))), 'i')),
+                ('row consistency: the discrepancy in row i is the new distance of the summaries in row i', z3.And(d1.shape[0] >= n, forall_range(0, n, lambda i: d1.at(i) == DNEW(s1.at(i)), 'i'))),
+                ('ascending in the new distance', forall2_range(0, n, lambda i, j: z3.Implies(i <= j, d1.at(i) <= d1.at(j))))]
+
+
 CONTRACTS = [SetObjective('threshold'), SetObjective('quantile'), SetObjective('n_sim'), SetObjective('default'),
              MergeBatch(False), MergeBatch(True),
-             InitSamplesLazy(), BaseUpdate(), UpdateStateMeta(), ExtractResult()]
-TRUSTED_BASE = []
-ASSUMPTIONS = []
-NOT_PROVED = []
+             InitSamplesLazy(), BaseUpdate(), UpdateStateMeta(), ExtractResult(),
+             RejectionUpdate(True), RejectionUpdate(False), UpdateObjective(False), UpdateObjective(True),
+             ExtractionLemma(True, False), ExtractionLemma(True, True), ExtractionLemma(False, False), UpdateDistances()]
+TRUSTED_BASE = ['pyvc engine: proxies, loop cutting, dict-of-arrays proxy (pyvc/sdict.py), numpy spec table (argsort = a sorting permutation - nothing about ties; boolean-mask select = order-preserving bijection; basic slices are views; np.sum of a mask = count)',
+                'L1 pigeonhole (Lean, lemmas/L1.lean) used as one instance in _merge_batch',
+                '+inf modelled as a real constant INF with val(d, j) <= INF for every draw (no arithmetic on it)']
+ASSUMPTIONS = ['A-REAL / no NaN discrepancies', 'A-INT', '1-D discrepancy column; non-adaptive distance in _merge_batch (the adaptive add_data call is C12)',
+               'ids of consumed draws are consumption order: batch t holds ids t*b .. t*b+b-1 (ghost)',
+               'Rejection.update composes the callee contracts (call order proved; the implication chain between callee posts and pres is read off the contracts, not machine-checked)']
+NOT_PROVED = ['"exactly ceil(budget/batch_size) batches are consumed": set_objective and _update_objective_n_batches are proved here; that infer() consumes exactly objective-many batches is C04 (iterate/infer contracts); the conjunction is a paper step',
+              'vector-valued discrepancies / nested adaptive distances in _merge_batch (bounded only)']
+
+
+def sanity():
+    import numpy as np
+    out = []
+    a = np.array([3.0, 1.0, 2.0])
+    v = a[1:]
+    v[:] = 9
+    out.append(('basic slices are views', a.tolist() == [3.0, 9.0, 9.0]))
+    b = np.array([5.0, 6.0, 7.0, 8.0])
+    b[-2:] = np.array([1.0, 2.0])
+    out.append(('negative slice assignment writes the tail', b.tolist() == [5.0, 6.0, 1.0, 2.0]))
+    m = np.array([True, False, True])
+    out.append(('mask select keeps order; sum(mask) counts', np.array([4.0, 5.0, 6.0])[m].tolist() == [4.0, 6.0] and int(np.sum(m)) == 2))
+    out.append(('ones * inf is +inf', bool(np.all(np.ones(3) * np.inf == np.inf))))
+    c = np.array([2.0, np.inf, 1.0, np.inf])
+    o = np.argsort(c)
+    out.append(('argsort sorts with inf last', c[o].tolist() == [1.0, 2.0, np.inf, np.inf]))
+    return out
 
 
 def bounded(tier, seed):
     from bounded import c01 as b
-    return [b.run(tier, seed), b.run(tier, seed, stop_first=False, with_inf=True)]
+    return [b.run(tier, seed), b.run(tier, seed, stop_first=False, with_inf=True), b.run_adaptive(tier, seed)]
 
 
 _replay_cache = {}
@@ -414,6 +636,9 @@ _replay_cache = {}
 
 def replay_refuted(cname, rf):
     from bounded import c01 as b
+    if cname.startswith('Rejection._update_distances'):
+        r = b.run_adaptive('quick', 0)
+        return dict(found=True, input=r['failures'][0]['input'], observed=r['failures'][0]['what']) if r['failures'] else dict(found=False, searched=r['bound'])
     if 'r' not in _replay_cache:
         r = b.run('quick', 0, stop_first=True)
         _replay_cache['r'] = dict(found=True, input=r['failures'][0]['input'], observed=r['failures'][0]['what']) if r['failures'] else \
